@@ -43,6 +43,7 @@ mod common;
 mod driver;
 mod kv;
 mod props;
+mod s3stub;
 mod world;
 
 fn main() {
